@@ -128,15 +128,270 @@ theorem matchNum_none (c : Char) (rest r : Str) (dot : Bool) (hrest : rest.all i
     simp only [matchNum, List.cons_append]
     split <;> simp_all [matchFrac, countWhile]
 
-theorem stepWord_word (c : Char) (rest r : Str) (dot : Bool) (hrest : rest.all isIdc = true)
+theorem stepWord_word_old (c : Char) (rest r : Str) (dot : Bool) (hrest : rest.all isIdc = true)
     (hnum : (c = 'i' ∨ c = 'f' ∨ c = 'd') → ∀ a rest', rest = a :: rest' → isDigit a = false)
     (hdot : dot = true → rest = [] → c ≠ 'f' ∧ c ≠ 'd') (hr : Fol dot r) :
     stepWord c (rest ++ r) = (wordOf (c :: rest), r) := by
   have hcw := countWhile_append isIdc rest r hrest hr.notIdc
   simp only [stepWord, matchNum_none c rest r dot hrest hnum hdot hr, wordTok, wordOf, hcw, List.take_left', List.drop_left']
 
+
+theorem countWhile_le (p : Char → Bool) (x : Str) : countWhile p x ≤ x.length := by
+  induction x with
+  | nil => simp [countWhile]
+  | cons a x ih => simp only [countWhile]; split <;> simp <;> omega
+
+theorem countWhile_stop (p : Char → Bool) (x r : Str) (h : countWhile p x < x.length) :
+    countWhile p (x ++ r) = countWhile p x := by
+  induction x with
+  | nil => simp at h
+  | cons a x ih =>
+    simp only [countWhile, List.cons_append] at *
+    split
+    · rename_i hp; simp only [hp, if_true, List.length_cons] at h; rw [ih (by omega)]
+    · rfl
+
+theorem countWhile_full (p : Char → Bool) (x r : Str) (h : countWhile p x = x.length) :
+    countWhile p (x ++ r) = x.length + countWhile p r := by
+  induction x with
+  | nil => simp
+  | cons a x ih =>
+    simp only [countWhile, List.cons_append] at *
+    split
+    · rename_i hp; simp only [hp, if_true, List.length_cons] at h; rw [ih (by omega)]; simp; omega
+    · rename_i hp; simp [hp] at h
+
+theorem drop_countWhile (p : Char → Bool) (x : Str) (h : countWhile p x < x.length) :
+    ∃ t tl, x.drop (countWhile p x) = t :: tl ∧ p t = false := by
+  induction x with
+  | nil => simp at h
+  | cons a x ih =>
+    simp only [countWhile] at *
+    split
+    · rename_i hp; simp only [hp, if_true, List.length_cons] at h
+      simpa using ih (by omega)
+    · rename_i hp; exact ⟨a, x, rfl, by simpa using hp⟩
+
+
+/-- followers that cannot extend a numeric literal past the end of a word: not an identifier character (so not a
+    digit), not a sign -/
+def FolG (r : Str) : Prop := ∀ x r', r = x :: r' → isIdc x = false ∧ x ≠ '+' ∧ x ≠ '-'
+
+theorem FolG.digits {r : Str} (h : FolG r) : countWhile isDigit r = 0 := by
+  cases r with
+  | nil => rfl
+  | cons x r' =>
+    have := (h x r' rfl).1
+    have hd : isDigit x = false := by
+      cases hx : isDigit x
+      · rfl
+      · simp [isIdc, hx] at this
+    simp [countWhile, hd]
+
+theorem matchFrac_ge (s : Str) (h : 0 < countWhile isDigit s) : ∃ b, matchFrac s = some b ∧ countWhile isDigit s ≤ b := by
+  simp only [matchFrac]
+  split
+  · split
+    · exact ⟨_, rfl, by omega⟩
+    · exact ⟨_, by simp, Nat.le_refl _⟩
+  · exact ⟨_, by simp [h], Nat.le_refl _⟩
+
+theorem matchFrac_stop (x r : Str) (h0 : 0 < countWhile isDigit x) (h : countWhile isDigit x < x.length) (hx : x.all isIdc = true) :
+    matchFrac (x ++ r) = some (countWhile isDigit x) := by
+  obtain ⟨t, tl, hd, ht⟩ := drop_countWhile isDigit x h
+  have hidc : isIdc t = true := by
+    have : t ∈ x := List.mem_of_mem_drop (hd ▸ List.mem_cons_self)
+    exact List.all_eq_true.mp hx t this
+  have h3 : t ≠ '.' := toNat_ne (by have := idc_range hidc; simp; omega)
+  simp only [matchFrac, countWhile_stop isDigit x r h, List.drop_append_of_le_length (Nat.le_of_lt h), hd, List.cons_append]
+  split
+  · rename_i heq; simp only [List.cons.injEq] at heq; exact absurd heq.1 h3
+  · simp [h0]
+
+
+theorem matchExp_nosign (c u : Char) (rest : Str) (h1 : u ≠ '+') (h2 : u ≠ '-') :
+    matchExp (c :: u :: rest) = if (c == 'e' || c == 'E') = true then
+      (if countWhile isDigit (u :: rest) > 0 then 1 + countWhile isDigit (u :: rest) else 0) else 0 := by
+  simp only [matchExp]
+  split
+  · split
+    · rename_i heq; simp only [List.cons.injEq] at heq; exact absurd heq.1 h1
+    · rename_i heq; simp only [List.cons.injEq] at heq; exact absurd heq.1 h2
+    · simp
+  · rfl
+
+theorem matchExp_single (c : Char) : matchExp [c] = 0 := by
+  simp only [matchExp]
+  split
+  · simp [countWhile]
+  · rfl
+
+
+theorem matchNum_digit (c a : Char) (y : Str) (ha : isDigit a = true) :
+    matchNum c (a :: y) = if (c == 'i') = true then some (countWhile isDigit (a :: y))
+      else (matchFrac (a :: y)).bind (fun b => if (c == 'f') = true then some (b + matchExp ((a :: y).drop b)) else some b) := by
+  have hr := digit_range ha
+  have h1 : a ≠ '+' := toNat_ne (by simp; omega)
+  have h2 : a ≠ '-' := toNat_ne (by simp; omega)
+  have hsg : (match a :: y with | '+' :: _ => 1 | '-' :: _ => 1 | _ => 0) = 0 := by
+    split <;> simp_all
+  unfold matchNum
+  simp only []
+  cases hf : matchFrac (a :: y) <;> (repeat' split) <;> simp_all [countWhile]
+
+
+/-- **follower independence**: a word `c · x` (x beginning with a digit) that the lexer took for an identifier in front
+    of SOME follower — the numeric literal starting at `c` ends inside the word — is an identifier in front of every
+    follower that is neither an identifier character nor a sign -/
+theorem matchNum_short (c a : Char) (w r0 r : Str) (hw : (a :: w).all isIdc = true) (ha : isDigit a = true)
+    (h0 : ∀ m, matchNum c (a :: w ++ r0) = some m → m < (a :: w).length) (hr : FolG r) :
+    ∀ m, matchNum c (a :: w ++ r) = some m → m < (a :: w).length := by
+  have hk0 : 0 < countWhile isDigit (a :: w) := by simp [countWhile, ha]
+  have hle := countWhile_le isDigit (a :: w)
+  -- all digits: with the original follower the literal covers the whole word — excluded
+  by_cases hall : countWhile isDigit (a :: w) = (a :: w).length
+  · exfalso
+    have hf := countWhile_full isDigit (a :: w) r0 hall
+    have h0' := h0
+    simp only [List.cons_append, matchNum_digit c a (w ++ r0) ha] at h0'
+    simp only [List.cons_append] at hf
+    by_cases hi : (c == 'i') = true
+    · simp only [hi, if_true] at h0'
+      have := h0' _ rfl
+      rw [hf] at this; omega
+    · simp only [hi] at h0'
+      obtain ⟨b, hb, hge⟩ := matchFrac_ge (a :: (w ++ r0)) (by rw [hf]; omega)
+      rw [hb] at h0'
+      simp only [Option.bind_some] at h0'
+      rw [hf] at hge
+      by_cases hfl : (c == 'f') = true
+      · simp only [hfl, if_true] at h0'
+        have := h0' _ rfl; omega
+      · simp only [hfl] at h0'
+        have := h0' _ rfl; omega
+  · have hlt : countWhile isDigit (a :: w) < (a :: w).length := by omega
+    intro m hm
+    simp only [List.cons_append, matchNum_digit c a (w ++ r) ha] at hm
+    have hstop := countWhile_stop isDigit (a :: w) r hlt
+    have hfrac := matchFrac_stop (a :: w) r hk0 hlt hw
+    simp only [List.cons_append] at hstop hfrac
+    by_cases hi : (c == 'i') = true
+    · simp only [hi, ↓reduceIte, hstop, Option.some.injEq] at hm
+      omega
+    · simp only [hi, Bool.false_eq_true, ↓reduceIte, hfrac, Option.bind_some] at hm
+      by_cases hfl : (c == 'f') = true
+      · simp only [hfl, ↓reduceIte, Option.some.injEq] at hm
+        -- the exponent part
+        obtain ⟨t, tl, hd, ht⟩ := drop_countWhile isDigit (a :: w) hlt
+        have hdrop : (a :: (w ++ r)).drop (countWhile isDigit (a :: w)) = t :: (tl ++ r) := by
+          have := List.drop_append_of_le_length (l₂ := r) (Nat.le_of_lt hlt)
+          simp only [List.cons_append] at this
+          rw [this, hd]; rfl
+        have hlen : (a :: w).length = countWhile isDigit (a :: w) + 1 + tl.length := by
+          have := congrArg List.length hd
+          simp only [List.length_drop, List.length_cons] at this
+          simp only [List.length_cons]; omega
+        have htl : tl.all isIdc = true := by
+          simp only [List.all_eq_true] at hw ⊢
+          intro x hx
+          exact hw x (List.mem_of_mem_drop (hd ▸ List.mem_cons_of_mem _ hx))
+        rw [hdrop] at hm
+        cases tl with
+        | nil =>
+          cases r with
+          | nil => simp only [List.append_nil, matchExp_single] at hm; omega
+          | cons x r' =>
+            have hx := hr x r' rfl
+            rw [List.nil_append, matchExp_nosign t x r' hx.2.1 hx.2.2] at hm
+            have := hr.digits
+            rw [this] at hm
+            simp at hm; omega
+        | cons u tl' =>
+          simp only [List.all_cons, Bool.and_eq_true] at htl
+          have hur := idc_range htl.1
+          have hu1 : u ≠ '+' := toNat_ne (by simp; omega)
+          have hu2 : u ≠ '-' := toNat_ne (by simp; omega)
+          rw [List.cons_append, matchExp_nosign t u (tl' ++ r) hu1 hu2] at hm
+          by_cases hall2 : countWhile isDigit (u :: tl') = (u :: tl').length
+          · -- `e` + digits up to the end of the word: with the original follower the literal covers the word
+            by_cases hte : (t == 'e' || t == 'E') = true
+            · exfalso
+              have h0' := h0
+              simp only [List.cons_append, matchNum_digit c a (w ++ r0) ha] at h0'
+              have hstop0 := countWhile_stop isDigit (a :: w) r0 hlt
+              have hfrac0 := matchFrac_stop (a :: w) r0 hk0 hlt hw
+              simp only [List.cons_append] at hstop0 hfrac0
+              simp only [hi, hfrac0, Option.bind_some, hfl, if_true] at h0'
+              have hdrop0 : (a :: (w ++ r0)).drop (countWhile isDigit (a :: w)) = t :: u :: (tl' ++ r0) := by
+                have := List.drop_append_of_le_length (l₂ := r0) (Nat.le_of_lt hlt)
+                simp only [List.cons_append] at this
+                rw [this, hd]; rfl
+              rw [hdrop0, matchExp_nosign t u (tl' ++ r0) hu1 hu2] at h0'
+              have hf2 := countWhile_full isDigit (u :: tl') r0 hall2
+              simp only [List.cons_append] at hf2
+              simp only [hte, if_true, hf2] at h0'
+              have := h0' _ rfl
+              simp only [List.length_cons] at this hlen
+              split at this <;> omega
+            · simp only [hte] at hm
+              simp at hm; omega
+          · have hlt2 : countWhile isDigit (u :: tl') < (u :: tl').length := by
+              have := countWhile_le isDigit (u :: tl'); omega
+            have hs2 := countWhile_stop isDigit (u :: tl') r hlt2
+            simp only [List.cons_append] at hs2
+            rw [hs2] at hm
+            simp only [List.length_cons] at hlt2 hlen
+            split at hm <;> (try split at hm) <;> simp only [List.length_cons] <;> omega
+      · simp only [hfl, Bool.false_eq_true, ↓reduceIte, Option.some.injEq] at hm
+        omega
+
+
+/-- the word `c · rest` is not taken for a numeric literal `i… / f… / d…`: either its second character is not a digit
+    (no literal starts), or the lexer itself, in front of some follower `r0`, found the literal to end inside the
+    word (`i5x`, `f5e`, `d1_a`: what an identifier token produced by the lexer satisfies) -/
+def NumFree (c : Char) (rest : Str) : Prop :=
+  (c = 'i' ∨ c = 'f' ∨ c = 'd') → (∀ a rest', rest = a :: rest' → isDigit a = false) ∨
+    (∃ a w r0, rest = a :: w ∧ isDigit a = true ∧ ∀ m, matchNum c (rest ++ r0) = some m → m < rest.length)
+
+theorem NumFree.old {c : Char} {rest : Str}
+    (h : (c = 'i' ∨ c = 'f' ∨ c = 'd') → ∀ a rest', rest = a :: rest' → isDigit a = false) : NumFree c rest :=
+  fun hc => Or.inl (h hc)
+
+/-- a word followed by a character that is neither an identifier character nor a sign, the numeric literal (if any)
+    ending inside the word: the word is the token -/
+theorem stepWord_short (c a : Char) (w r0 r : Str) (hrest : (a :: w).all isIdc = true) (ha : isDigit a = true)
+    (h0 : ∀ m, matchNum c (a :: w ++ r0) = some m → m < (a :: w).length) (hr : FolG r) :
+    stepWord c (a :: w ++ r) = (wordOf (c :: a :: w), r) := by
+  have hcw := countWhile_append isIdc (a :: w) r hrest (fun x r' e => (hr x r' e).1)
+  have hs := matchNum_short c a w r0 r hrest ha h0 hr
+  simp only [stepWord, wordTok, wordOf, hcw, List.take_left', List.drop_left']
+  split
+  · rename_i n hn
+    have : matchNum c (a :: w ++ r) = some n := by
+      split at hn
+      · exact hn
+      · cases hn
+    have := hs n this
+    rw [if_neg (by omega)]
+  · rfl
+
+theorem Fol.folG {dot : Bool} {r : Str} (h : Fol dot r) : FolG r := by
+  intro x r' e; subst e
+  simp only [Fol, folChars, List.mem_cons, List.not_mem_nil, or_false] at h
+  rcases h with (rfl | rfl | rfl | rfl | rfl | rfl | rfl) | ⟨_, rfl⟩ <;> decide
+
+theorem stepWord_word (c : Char) (rest r : Str) (dot : Bool) (hrest : rest.all isIdc = true)
+    (hnum : NumFree c rest)
+    (hdot : dot = true → rest = [] → c ≠ 'f' ∧ c ≠ 'd') (hr : Fol dot r) :
+    stepWord c (rest ++ r) = (wordOf (c :: rest), r) := by
+  by_cases hg : c = 'i' ∨ c = 'f' ∨ c = 'd'
+  · rcases hnum hg with hold | ⟨a, w, r0, rfl, ha, h0⟩
+    · exact stepWord_word_old c rest r dot hrest (fun _ => hold) hdot hr
+    · exact stepWord_short c a w r0 r hrest ha h0 hr.folG
+  · exact stepWord_word_old c rest r dot hrest (fun h => absurd h hg) hdot hr
+
 theorem step_word (c : Char) (rest r : Str) (dot : Bool) (hc : isAlpha c = true) (hrest : rest.all isIdc = true)
-    (hnum : (c = 'i' ∨ c = 'f' ∨ c = 'd') → ∀ a rest', rest = a :: rest' → isDigit a = false)
+    (hnum : NumFree c rest)
     (hdot : dot = true → rest = [] → c ≠ 'f' ∧ c ≠ 'd') (hr : Fol dot r) :
     step (c :: rest ++ r) = some (some (wordOf (c :: rest)), r) := by
   have h1 := alpha_not_white hc
@@ -306,8 +561,7 @@ theorem Fol.of_head (dot : Bool) (c : Char) (r : Str) (hc : c ∈ folChars) : Fo
     literal prefixes `i`, `f`, `d` the next character is not a digit (the lexer also makes `i5x`, `f1x` identifiers, by
     longest match against the numeric literal; those are not covered) -/
 def NameOK (n : Str) : Prop :=
-  ∃ c rest, n = c :: rest ∧ isAlpha c = true ∧ rest.all isIdc = true ∧
-    ((c = 'i' ∨ c = 'f' ∨ c = 'd') → ∀ a rest', rest = a :: rest' → isDigit a = false) ∧ keywords.contains n = false
+  ∃ c rest, n = c :: rest ∧ isAlpha c = true ∧ rest.all isIdc = true ∧ NumFree c rest ∧ keywords.contains n = false
 
 /-- the text of a literal leaf is one token when followed by a closing bracket, a space or a comma; the library's
     float text is not modelled character by character: for it this is the hypothesis (decimals are proved) -/
@@ -484,7 +738,7 @@ theorem lx_sp {r : Str} {T : List Tok} (hr : Hd StartC r) (h : Lexes r T) : Lexe
 
 /-- a word (keyword or identifier) -/
 theorem lx_word {c : Char} {rest r : Str} {T : List Tok} (dot : Bool) (hc : isAlpha c = true) (hrest : rest.all isIdc = true)
-    (hnum : (c = 'i' ∨ c = 'f' ∨ c = 'd') → ∀ a rest', rest = a :: rest' → isDigit a = false)
+    (hnum : NumFree c rest)
     (hdot : dot = true → rest = [] → c ≠ 'f' ∧ c ≠ 'd') (hr : Fol dot r) (h : Lexes r T) :
     Lexes (c :: rest ++ r) (wordOf (c :: rest) :: T) :=
   Lexes.tok (w := c :: rest) (by simp) (step_word c rest r dot hc hrest hnum hdot hr) h
@@ -508,7 +762,7 @@ def KwText (w : Str) : Prop :=
 theorem lx_kw {w r : Str} {T : List Tok} (hw : KwText w) (dot : Bool) (hr : Fol dot r) (h : Lexes r T) :
     Lexes (w ++ r) (.kw w :: T) := by
   obtain ⟨hk, c, rest, rfl, hc, hrest, hnum, hne⟩ := hw
-  have := lx_word (T := T) dot hc hrest hnum (fun _ e => absurd e hne) hr h
+  have := lx_word (T := T) dot hc hrest (NumFree.old hnum) (fun _ e => absurd e hne) hr h
   simp only [wordOf, hk, if_true, List.cons_append] at this
   exact this
 
